@@ -1,5 +1,5 @@
 SPECIFICATION Spec
-CONSTANTS Keys <- Keys6
+CONSTANTS Keys <- Keys7
  Vals = {"s", "m", "L"}
  Path <- McPath
  Variants <- VarAll
